@@ -10,6 +10,7 @@ mod canon;
 mod pkt;
 mod props;
 mod rt;
+mod scenario;
 mod sha256;
 mod tcpref;
 
